@@ -156,6 +156,8 @@ class Program:
             mi = ModuleInfo(short, path, f"src/someip/{short}.py", tree, raw.decode("utf-8", "replace"))
             self.modules[short] = mi
         self.digest = h.hexdigest()
+        from .renames import undo_private_renames
+        self.renames = undo_private_renames({short: mi.tree for short, mi in self.modules.items()})
         for mi in self.modules.values():
             self._scan_module(mi)
         for ci in self.classes.values():
